@@ -852,6 +852,19 @@ func (env *Env) callExpr(x *ast.CallExpr) EVal {
 		}
 		sub.inOld = true
 		return sub.eval(x.Args[0])
+	case "entry":
+		// entry(e): value of e when the enclosing loop was entered (loop invariants only)
+		argN(1)
+		if env.li == nil || env.li.entrySt == nil || env.fr == nil {
+			env.fail("entry() is only available in loop invariants")
+		}
+		sub := *env
+		sub.st = env.li.entrySt
+		sub.inOld = false
+		saved := env.fr.overrides
+		env.fr.overrides = env.li.entryVals
+		defer func() { env.fr.overrides = saved }()
+		return sub.eval(x.Args[0])
 	case "implies":
 		argN(2)
 		a, b := env.eval(x.Args[0]), env.eval(x.Args[1])
@@ -963,6 +976,44 @@ func (env *Env) callExpr(x *ast.CallExpr) EVal {
 			env.fail("fresh() not available here")
 		}
 		return env.boolVal(f.And(f.ULe(env.allocAtEntry, v.V[k]), f.ULt(v.V[k], env.tr.get(env.st, "alloc"))))
+	case "guidparse":
+		// the 16 bytes uuid.Parse yields for a string (uninterpreted, deterministic)
+		argN(1)
+		v := env.defaultType(env.eval(x.Args[0]))
+		out := make(Val, 16)
+		for i := 0; i < 16; i++ {
+			out[i] = f.App(fmt.Sprintf("uuid_parse_%d", i), S8, v.V[0])
+		}
+		return EVal{V: out, T: types.NewArray(types.Typ[types.Uint8], 16)}
+	case "guidok":
+		argN(1)
+		v := env.defaultType(env.eval(x.Args[0]))
+		return env.boolVal(f.App("uuid_parse_ok", SBool, v.V[0]))
+	case "guidmixed":
+		// the 16 bytes at b[off:] read in GPT's mixed-endian order (first three groups byte-swapped)
+		argN(2)
+		s := env.eval(x.Args[0])
+		off := env.toIndex64(env.eval(x.Args[1]))
+		perm := []int64{3, 2, 1, 0, 5, 4, 7, 6, 8, 9, 10, 11, 12, 13, 14, 15}
+		out := make(Val, 16)
+		for i := 0; i < 16; i++ {
+			out[i] = env.byteAt(s, f.AddC(off, perm[i]))
+		}
+		return EVal{V: out, T: types.NewArray(types.Typ[types.Uint8], 16)}
+	case "guidstring":
+		// canonical upper-case string of a 16-byte GUID value (as produced by uuid.String + strings.ToUpper)
+		argN(1)
+		v := env.eval(x.Args[0])
+		var t *Term
+		for _, b := range v.V {
+			if t == nil {
+				t = b
+			} else {
+				t = f.Concat(t, b)
+			}
+		}
+		id := f.App("strings.ToUpper", S64, f.App("uuid_string", S64, t))
+		return EVal{V: Val{id, f.App("strlen", S64, id)}, T: types.Typ[types.String]}
 	case "written":
 		// written(w): total number of bytes passed to w.Write so far (ghost counter of an io.Writer)
 		argN(1)
